@@ -1420,7 +1420,11 @@ def _b_print(M, I, args, kw, node):
 
 def _b_chr(M, I, args, kw, node):
     if is_sym(args[0]):
-        raise Unsupported('chr of symbolic')
+        # chr(x): the one-character string of code point x (SMT-LIB str.from_code); outside 0..0x10ffff a ValueError
+        x = to_int(args[0])
+        if not I.pure and not I.ctx.branch(z3.And(x >= 0, x < 0x110000)):
+            raise PyExc('ValueError', line_of(node), 'chr() arg not in range')
+        return z3.StrFromCode(x)
     return chr(args[0])
 
 
